@@ -260,3 +260,26 @@ def const_upper_bound(conds, x):
             n = cint(b) if op == "<" else cint(b) + 1
             best = n if best is None else min(best, n)
     return best
+
+
+def loop_phis(b):
+    """the loop-carried variables of the loop a back-edge path belongs to: list of (phi term, value at the back edge)"""
+    out = []
+    for e in b.trace:
+        if e[0] == "phis" and e[2] == b.loop:
+            for key, phi in e[3]:
+                out.append((phi, b.store.get(key)))
+    return out
+
+
+def carried_of(b, phi):
+    """value at the back edge of the loop-carried variable denoted by `phi` (name-independent)"""
+    for ph, v in loop_phis(b):
+        if ph == phi:
+            return v
+    return None
+
+
+def phi_with_init(b, init_pred):
+    """the loop-carried variables of b's loop whose initial value satisfies init_pred"""
+    return [(ph, v) for ph, v in loop_phis(b) if init_pred(ph[4])]
